@@ -23,6 +23,9 @@ class Interp:
         self.loop_snap = []        # stack of pre-loop snapshots (envs)
         self.cur_contract = None
         self.result = None
+        self.assume_mode = False
+        self.polarity = True
+        self.q_ctx = []
 
     # ------------------------------------------------------------------ utilities
     def fresh_value(self, t, hint):
@@ -343,6 +346,13 @@ class Interp:
             if a.t.nm != b.t.nm:
                 return z3.BoolVal(False)
             return z3.And([self.eq(a.fields[f], b.fields[f]) for f in a.t.fields] + [z3.BoolVal(True)])
+        if isinstance(a, VEmptyList) or isinstance(b, VEmptyList):
+            o = b if isinstance(a, VEmptyList) else a
+            if isinstance(o, VEmptyList):
+                return z3.BoolVal(True)
+            if isinstance(o, VSeq):
+                return o.n == 0
+            return z3.BoolVal(False)
         if isinstance(a, VSeq) and isinstance(b, VSeq) and a.et == b.et:
             i = z3.Int(self.path.fresh_name("eq_i"))
             ea, eb = a.et.wrap(z3.Select(a.arr, i)), b.et.wrap(z3.Select(b.arr, i))
@@ -427,10 +437,9 @@ class Interp:
         v = B.builtin_name(name)
         if v is not None:
             return v
-        if self.spec:
-            v = self.ver.spec_name(name)
-            if v is not None:
-                return v
+        v = self.ver.spec_name(name)
+        if v is not None and (self.spec or v.kind == "builtin"):
+            return v
         if not self.spec:
             self.raise_exc("NameError", name)
         raise Unsupported("unknown name in spec: %s" % name)
@@ -594,9 +603,15 @@ class Interp:
         return t.wrap(z3.If(c, unwrap(a, t), unwrap(b, t)))
 
     def ev_UnaryOp(self, n, env):
-        v = self.ev(n.operand, env)
         if isinstance(n.op, ast.Not):
+            pol = self.polarity
+            self.polarity = False
+            try:
+                v = self.ev(n.operand, env)
+            finally:
+                self.polarity = pol
             return VBool(z3.Not(self.truth(v)))
+        v = self.ev(n.operand, env)
         v = self.force(v) if not self.spec else v
         if isinstance(n.op, ast.USub):
             if isinstance(v, VReal):
@@ -762,6 +777,98 @@ class Interp:
         name = var_node.id
         return name
 
+    def _patterns_for(self, cs, exprs):
+        """explicit triggers: array reads / function applications whose argument is exactly a bound variable"""
+        ids = {c.get_id(): k for k, c in enumerate(cs)}
+        found = [[] for _ in cs]
+        seen = set()
+
+        def uses_bound(e):
+            st = [e]
+            sn = set()
+            while st:
+                x = st.pop()
+                if x.get_id() in sn:
+                    continue
+                sn.add(x.get_id())
+                if x.get_id() in ids:
+                    return True
+                if z3.is_app(x):
+                    st.extend(x.children())
+                elif z3.is_quantifier(x):
+                    st.append(x.body())
+            return False
+
+        def pattern_ok(e):
+            st = [e]
+            sn = set()
+            while st:
+                x = st.pop()
+                if x.get_id() in sn:
+                    continue
+                sn.add(x.get_id())
+                if z3.is_quantifier(x) or not z3.is_app(x):
+                    if z3.is_var(x):
+                        continue
+                    return False
+                k = x.decl().kind()
+                if k in (z3.Z3_OP_ITE, z3.Z3_OP_AND, z3.Z3_OP_OR, z3.Z3_OP_NOT, z3.Z3_OP_IMPLIES, z3.Z3_OP_EQ,
+                         z3.Z3_OP_LE, z3.Z3_OP_LT, z3.Z3_OP_GE, z3.Z3_OP_GT, z3.Z3_OP_DISTINCT):
+                    return False
+                st.extend(x.children())
+            return True
+
+        stack = list(exprs)
+        while stack:
+            e = stack.pop()
+            if e.get_id() in seen:
+                continue
+            seen.add(e.get_id())
+            if z3.is_quantifier(e):
+                continue
+            if z3.is_app(e):
+                ch = e.children()
+                if not pattern_ok(e):
+                    stack.extend(ch)
+                    continue
+                if z3.is_select(e) and ch[1].get_id() in ids and not uses_bound(ch[0]):
+                    found[ids[ch[1].get_id()]].append(e)
+                elif e.decl().kind() == z3.Z3_OP_UNINTERPRETED and len(ch) >= 1 and \
+                        any(c.get_id() in ids for c in ch) and all(c.get_id() in ids or not uses_bound(c) for c in ch):
+                    for c in ch:
+                        if c.get_id() in ids:
+                            found[ids[c.get_id()]].append(e)
+                stack.extend(ch)
+        if any(not f for f in found):
+            return None
+        if len(cs) == 1:
+            return found[0][:4]
+        # multi-patterns: one term per variable (a term covering several variables is used once)
+        pats = []
+        first = []
+        for f in found:
+            first.append(f[0])
+        uniq = []
+        for t in first:
+            if all(t.get_id() != u.get_id() for u in uniq):
+                uniq.append(t)
+        pats.append(z3.MultiPattern(*uniq) if len(uniq) > 1 else uniq[0])
+        return pats
+
+    def _mk_forall(self, cs, cond, body):
+        pats = None
+        if not self.ver.no_patterns:
+            try:
+                pats = self._patterns_for(cs, [cond, body])
+            except Exception:
+                pats = None
+        if pats:
+            try:
+                return z3.ForAll(cs, z3.Implies(cond, body), patterns=pats)
+            except z3.Z3Exception:
+                pass
+        return z3.ForAll(cs, z3.Implies(cond, body))
+
     def _quant(self, n, env, is_forall):
         # forall(i, cond, body) ; forall((k, "str"), cond, body) for non-int binders
         vn = n.args[0]
@@ -771,21 +878,65 @@ class Interp:
         else:
             name = vn.id
             t = TInt
-        c = z3.Const("q_%s!%d" % (name, self.ver.qcounter()), t.sort())
+        skolem = (not is_forall) and self.assume_mode and self.polarity and self.q_ctx
+        if skolem:
+            fn = z3.Function(self.path.fresh_name("sk_" + name), *([v.sort() for v in self.q_ctx] + [t.sort()]))
+            c = fn(*self.q_ctx)
+        else:
+            c = z3.Const("q_%s!%d" % (name, self.path.qcounter()), t.sort())
         saved = self.binders.get(name, None)
         had = name in self.binders
         self.binders[name] = t.wrap(c)
+        if is_forall:
+            self.q_ctx = self.q_ctx + [c]
         try:
-            cond = self.truth(self.ev(n.args[1], env))
+            if is_forall:
+                pol = self.polarity
+                self.polarity = False
+                try:
+                    cond = self.truth(self.ev(n.args[1], env))
+                finally:
+                    self.polarity = pol
+            else:
+                cond = self.truth(self.ev(n.args[1], env))
             body = self.truth(self.ev(n.args[2], env))
         finally:
+            if is_forall:
+                self.q_ctx = self.q_ctx[:-1]
             if had:
                 self.binders[name] = saved
             else:
                 del self.binders[name]
         if is_forall:
-            return VBool(z3.ForAll([c], z3.Implies(cond, body)))
+            return VBool(self._mk_forall([c], cond, body))
+        if skolem:
+            return VBool(z3.And(cond, body))
         return VBool(z3.Exists([c], z3.And(cond, body)))
+
+    def spec_forall2(self, n, env):
+        """forall2(i, j, cond, body): one quantifier over two integer binders (better triggers than nesting)"""
+        names = [n.args[0].id, n.args[1].id]
+        cs = [z3.Const("q_%s!%d" % (nm, self.path.qcounter()), z3.IntSort()) for nm in names]
+        saved = {nm: self.binders.get(nm, _MISSING) for nm in names}
+        for nm, c in zip(names, cs):
+            self.binders[nm] = VInt(c)
+        self.q_ctx = self.q_ctx + cs
+        try:
+            pol = self.polarity
+            self.polarity = False
+            try:
+                cond = self.truth(self.ev(n.args[2], env))
+            finally:
+                self.polarity = pol
+            body = self.truth(self.ev(n.args[3], env))
+        finally:
+            self.q_ctx = self.q_ctx[:-2]
+            for nm in names:
+                if saved[nm] is _MISSING:
+                    del self.binders[nm]
+                else:
+                    self.binders[nm] = saved[nm]
+        return VBool(self._mk_forall(cs, cond, body))
 
     def spec_forall(self, n, env):
         return self._quant(n, env, True)
@@ -794,7 +945,12 @@ class Interp:
         return self._quant(n, env, False)
 
     def spec_implies(self, n, env):
-        a = self.truth(self.ev(n.args[0], env))
+        pol = self.polarity
+        self.polarity = False
+        try:
+            a = self.truth(self.ev(n.args[0], env))
+        finally:
+            self.polarity = pol
         b = self.truth(self.ev(n.args[1], env))
         return VBool(z3.Implies(a, b))
 
@@ -971,12 +1127,29 @@ class Interp:
         v = self.ev(s.value, env)
         for t in s.targets:
             self.assign(t, v, env)
+        self.ghost_asserts_after(s, env)
+
+    def ghost_asserts_after(self, s, env):
+        """sidecar cut points: `asserts={"var": [clauses]}` are proved (named obligations) and then assumed
+        right after a statement of the contract's own function that assigns `var`"""
+        c = self.cur_contract
+        if c is None or not getattr(c, "asserts", None) or len(self.fn_stack) != 1:
+            return
+        from .modset import _target_names
+        names = set()
+        for t in getattr(s, "targets", [getattr(s, "target", None)]):
+            if t is not None:
+                _target_names(t, names)
+        for nm in sorted(names):
+            for i, cl in enumerate(c.asserts.get(nm, [])):
+                self.path.prove(self.eval_spec(cl, env), "%s/assert-after:%s#%d" % (c.short, nm, i), "assert", where=cl)
 
     def ex_AnnAssign(self, s, env):
         if s.value is None:
             return
         v = self.ev(s.value, env)
         self.assign(s.target, v, env)
+        self.ghost_asserts_after(s, env)
 
     def ex_AugAssign(self, s, env):
         if isinstance(s.target, ast.Name):
@@ -1078,6 +1251,25 @@ class Interp:
             self.raise_exc("FrozenInstanceError", "cannot assign to field")
         self.raise_exc("AttributeError", "cannot set attribute %s" % name)
 
+    def coerce_value(self, v, t):
+        """shape a returned value after the declared return type (typed empties, optionals)"""
+        if isinstance(t, TTuple) and isinstance(v, VTuple) and len(v.items) == len(t.elems):
+            return VTuple([self.coerce_value(x, et) for x, et in zip(v.items, t.elems)])
+        if isinstance(v, VEmptyList) and isinstance(t, TList):
+            return VSeq(z3.K(z3.IntSort(), self.default_of(t.elem)), z3.IntVal(0), t.elem, t.kind)
+        if isinstance(v, VEmptySet) and isinstance(t, TSet):
+            return self.empty_set(t)
+        if isinstance(v, VDictRec) and not v.fields and isinstance(t, TMap):
+            return self.empty_map(t)
+        if isinstance(t, TOpt) and not isinstance(v, VOpt):
+            try:
+                return t.wrap(unwrap(v, t))
+            except TypeError:
+                return v
+        if t is TReal and isinstance(v, (VInt, VBool)):
+            return VReal(to_real(v))
+        return v
+
     def coerce_to(self, v, ft):
         if isinstance(ft, (TObj, TFun, TOptObj, TDictRec)):
             return v
@@ -1143,7 +1335,78 @@ class Interp:
         if not self.test(c):
             self.raise_exc("AssertionError", "")
 
+    # ---- if-conversion of trivially simple conditionals (no fork) ---------------------------
+    def _simple_expr(self, e):
+        if isinstance(e, ast.Constant):
+            return isinstance(e.value, (int, float, str, bool)) or e.value is None
+        if isinstance(e, ast.Name):
+            return True
+        if isinstance(e, ast.UnaryOp) and isinstance(e.op, (ast.USub, ast.UAdd)):
+            return self._simple_expr(e.operand)
+        if isinstance(e, ast.BinOp) and isinstance(e.op, (ast.Add, ast.Sub, ast.Mult)):
+            return self._simple_expr(e.left) and self._simple_expr(e.right)
+        return False
+
+    def _simple_assign(self, body):
+        if len(body) == 1 and isinstance(body[0], ast.Assign) and len(body[0].targets) == 1 \
+                and isinstance(body[0].targets[0], ast.Name) and self._simple_expr(body[0].value):
+            return body[0].targets[0].id, body[0].value
+        return None
+
+    def try_if_conversion(self, s, env):
+        cv = None
+        # pattern A: if c: x = e   [else: x = e2]
+        a = self._simple_assign(s.body)
+        b = self._simple_assign(s.orelse) if s.orelse else None
+        if a is not None and (not s.orelse or (b is not None and b[0] == a[0])):
+            name = a[0]
+            cur = env.lookup(name)
+            if cur is None and b is None:
+                return False
+            try:
+                cv = self.ev(s.test, env)
+                if isinstance(cv, (VOpt, VOptObj)) or not isinstance(cv, (VBool, VInt, VReal, VStr, VSeq, VMap, VSet)):
+                    raise Unsupported("cond")
+                tv = self.ev(a[1], env)
+                fv = self.ev(b[1], env) if b is not None else cur
+                scal = (VInt, VReal, VBool, VStr)
+                if not (isinstance(tv, scal) and isinstance(fv, scal)):
+                    raise Unsupported("non scalar")
+                merged = self.ite(self.truth(cv), tv, fv)
+            except (Unsupported, TypeError, PyRaise):
+                if cv is None:
+                    return False
+                # the test was evaluated already (it may have forked): finish the statement normally
+                if self.test(cv):
+                    self.exec_block(s.body, env)
+                else:
+                    self.exec_block(s.orelse, env)
+                return True
+            self.assign(ast.Name(id=name, ctx=ast.Store()), merged, env)
+            return True
+        # pattern B: if c: lst.append(<constant>)
+        if not s.orelse and len(s.body) == 1 and isinstance(s.body[0], ast.Expr) and isinstance(s.body[0].value, ast.Call):
+            call = s.body[0].value
+            f = call.func
+            if isinstance(f, ast.Attribute) and f.attr == "append" and isinstance(f.value, ast.Name) and len(call.args) == 1 \
+                    and isinstance(call.args[0], ast.Constant) and not call.keywords:
+                lst = env.lookup(f.value.id)
+                if isinstance(lst, VSeq) and lst.origin is None:
+                    cv = self.ev(s.test, env)
+                    if isinstance(cv, (VOpt, VOptObj)):
+                        if self.test(cv):
+                            self.exec_block(s.body, env)
+                        return True
+                    c = self.truth(cv)
+                    x = unwrap(mk_const(call.args[0].value), lst.et)
+                    lst.arr = z3.If(c, z3.Store(lst.arr, lst.n, x), lst.arr)
+                    lst.n = z3.simplify(lst.n + z3.If(c, 1, 0))
+                    return True
+        return False
+
     def ex_If(self, s, env):
+        if not self.ver.no_if_conversion and self.try_if_conversion(s, env):
+            return
         c = self.ev(s.test, env)
         if self.test(c):
             self.exec_block(s.body, env)
@@ -1283,11 +1546,22 @@ class Interp:
 
     def assume_invariants(self, spec, env):
         for inv in spec.get("inv", []):
-            self.path.assume(self.eval_spec(inv, env))
+            self.path.assume(self.eval_spec(inv, env, assume=True))
 
-    def eval_spec(self, src, env, extra=None):
-        """evaluate a spec expression (source string) to a z3 Bool in the given env."""
+    def eval_spec(self, src, env, extra=None, assume=False):
+        """evaluate a spec expression (source string) to a z3 Bool in the given env.
+        assume=True: the formula will be *assumed*; positive `exists` under `forall` are skolemised explicitly
+        so that the resulting axioms carry usable triggers."""
         node = self.ver.parse_spec(src)
+        saved = self.spec
+        saved_mode = (self.assume_mode, self.polarity, self.q_ctx)
+        self.assume_mode, self.polarity, self.q_ctx = assume, True, []
+        try:
+            return self._eval_spec(node, env, extra)
+        finally:
+            self.assume_mode, self.polarity, self.q_ctx = saved_mode
+
+    def _eval_spec(self, node, env, extra=None):
         saved = self.spec
         self.spec = True
         e2 = env
@@ -1364,6 +1638,9 @@ class Interp:
     def ex_For(self, s, env):
         from . import builtins as B
         return B.exec_for(self, s, env)
+
+
+_MISSING = object()
 
 
 class SpecUndef(Exception):
